@@ -8,11 +8,14 @@ MANIFEST = dict(
    note="Trusted: Lean kernel; axioms propext/Classical.choice/Quot.sound at most; harness + comparer; the Go toolchain's unicode tables (regenerated into Gen/CaseTable.lean) and utf8 decoding as transcribed in Model/StrU.lean (no theorem relates StrU to the ASCII model; the run does). String semantics are byte-level (Go len/HasPrefix/Contains). Regex: four fixed patterns and pure-literal patterns only; Email/JSON/JWT/MAC are C20's, Normalize/Slugify and Coerce are outside (pinned by c01_opaque_methods). The epsilon of float MultipleOf is the float-computed max(1e-10, |d|*1e-6) of the code comment. Float.Int accepts +-Inf (Trunc(Inf) == Inf), read as 'no fractional part'.",
    design="DESIGN.md §5 C01; notes/C01.md")
 
-MODULES = ["Gozod.Proofs.C01", "Gozod.Proofs.C01Methods"]
+MODULES = ["Gozod.Proofs.C01", "Gozod.Proofs.C01Methods", "Gozod.Proofs.C01StrU"]
 THEOREMS = ["Gozod.C01." + t for t in ["c01_accept_iff", "c01_result", "c01_foreign_rejected", "c01_num_holds_spec", "c01_enum_iff", "isIntF_eq_spec",
     "c01_methods_classified", "c01_methods_nonempty", "c01_opaque_methods",
     "c01_float_multipleOf", "c01_float_cmp", "c01_float_nan_rejected", "c01_float_finite_iff", "c01_float_safe_iff", "c01_float_int"]] + [
-    "Gozod.FloatMul.implMultF_eq_specMultF", "Gozod.FloatMul.ofBits_rep"]
+    "Gozod.FloatMul.implMultF_eq_specMultF", "Gozod.FloatMul.ofBits_rep"] + ["Gozod.C01." + t for t in [
+    "trim_ascii", "strU_apply_ascii", "apply_ascii_closed", "strU_run_ascii", "strU_runOn_ascii", "strU_parse_ascii",
+    "trim_idem", "trim_no_space_ends", "lower_idem", "upper_idem", "lower_then_lowercase", "upper_then_uppercase",
+    "strU_trim_idem", "strU_lower_idem", "strU_upper_idem", "seenAt_compose", "seenAt_no_overwrite"]]
 
 def key(op, impl, M, S):
     kind = C.op_body(op).split(" ")[1]
